@@ -16,6 +16,11 @@ from . import srcnorm as _srcnorm
 from fractions import Fraction
 
 
+def comment_safe(x):
+    """text that can be put inside a Coq comment: no comment delimiters, no double quotes (Coq lexes strings inside comments)"""
+    return str(x).replace('(*', '( *').replace('*)', '* )').replace('"', "'").replace('\n', ' ')[:400]
+
+
 class Unsupported(Exception):
     pass
 
